@@ -189,3 +189,16 @@ Theorem C08_wind_rewrite_idempotent : forall c, w_wf c = true ->
   match w_dec (w_nx c) (w_ny c) (w_nz c) (w_stag c) (w_dummy c) (w_enc c) with Some c' => w_enc c' = w_enc c | None => False end.
 Proof. exact w_rewrite_idempotent. Qed.
 Print Assumptions C08_wind_rewrite_idempotent.
+
+(* ======================================================================================================
+   CAMx cloud/rain files (Model/CloudRain.v): read, write, read
+   ====================================================================================================== *)
+From PNC Require Import Model.CloudRain Proofs.CloudRainProofs.
+
+(* reading a file whose size is unambiguous and writing what was presented (ncf2cloud_rain, hand-modelled as c_write)
+   reproduces the file word for word, and the written file decodes to the content *)
+Theorem C08_cloudrain_read_write : forall c, c_wf c = true -> c_steps c <> [] -> c_unambiguous c = true ->
+  exists v, cr_mm_read (c_enc c) (4 * Z.of_nat (length (c_enc c))) = Ok v /\ c_write (c_desc c) v = c_enc c /\
+            c_dec (c_nvars c) (c_write (c_desc c) v) = Some c.
+Proof. exact cr_read_write. Qed.
+Print Assumptions C08_cloudrain_read_write.
